@@ -56,7 +56,9 @@ for _name in ("reset_network_info", "_reset", "_ensure_network_running"):
         c.self(APP_NI)
         c.trusted = True  # their own contracts: C17 (_ensure_network_running); reset paths are outside C14
         c.effect_name = "app." + _name
-        c.raises("failed", Exception)
+        c.raises("command_failed", EzspError)
+        c.raises("timeout", asyncio.TimeoutError)
+        c.raises("failed", zigpy.exceptions.RadioException)  # NetworkNotFormed, start-up failure
         c.raises("cancelled", asyncio.CancelledError)
         c.modifies()
 
@@ -81,11 +83,28 @@ class _ChildrenT:
         return [c0, c1]
 
 
+class _NwkAddressesT:
+    """NWK addresses known for the first child only (and for a device that is no child)"""
+
+    def fresh(self, I, name):
+        return {"<filled by setup>": None}
+
+
+def _children_setup(I, b):
+    ni = b["network_info"]
+    c0, c1 = ni.fields["children"]
+    other = T.opaque.fresh(I, "not_a_child")
+    I.ctx.assume(other.t != c0.t)
+    I.ctx.assume(other.t != c1.t)
+    ni.fields["nwk_addresses"] = {c0: T.typed_int(t.EmberNodeId).fresh(I, "nwk_of_child0"), other: T.typed_int(t.EmberNodeId).fresh(I, "nwk_of_other")}
+    b["child0"], b["child1"] = c0, c1
+
+
 def _network_info(stack_specific):
     return T.record(
         zigpy.state.NetworkInfo, frozen=False,
         network_key=KeyRec(), tc_link_key=KeyRec(), key_table=T.const(["<link key table>"]),
-        children=T.const([]), nwk_addresses=T.const({}),
+        children=_ChildrenT(), nwk_addresses=_NwkAddressesT(),
         pan_id=T.range(0, 0xFFFF), extended_pan_id=T.opaque, channel=T.range(11, 26), channel_mask=T.enum(t.Channels),
         nwk_manager_id=T.range(0, 0xFFFF), nwk_update_id=T.range(0, 255),
         stack_specific=T.const(stack_specific),
@@ -113,8 +132,23 @@ def _(c):
          {"network_info": _network_info({"ezsp": {"i_understand_i_can_update_eui64_only_once_and_i_still_want_to_do_it": True}}),
           "node_info": NodeInfoT}),
     )
+    c.setup = _children_setup
     c.raises("failed", Exception)
     c.raises("cancelled", asyncio.CancelledError)
+    # the factory reset comes first, and the address the NCP "really has" is read after it: the reset clears a
+    # rewritable EUI64 token and restarts the NCP, so an address sampled before it may no longer be the NCP's
+    c.ensures(
+        "post.own_address_read_after_the_reset",
+        lambda fx: [r[1] for r in fx if r[0] == "call" and r[1] in ("app.reset_network_info", "ezsp.getEui64")]
+        == ["app.reset_network_info", "ezsp.getEui64"],
+    )
+    # "the child table": exactly the children whose NWK address is known, each with its address
+    c.ensures(
+        "post.children_with_known_addresses_written",
+        lambda network_info, child0, fx: len(calls(fx, "ezsp.write_child_data")) == 1
+        and list(calls(fx, "ezsp.write_child_data")[0][2][0].keys()) == [child0]
+        and calls(fx, "ezsp.write_child_data")[0][2][0][child0] == network_info.nwk_addresses[child0],
+    )
     # frame counters ("where the protocol version can store them": the per-version accessors decide)
     c.ensures(
         "post.frame_counters_written",
@@ -172,3 +206,181 @@ def _(c):
         lambda fx: [r[1] for r in fx if r[0] == "call" and r[1] in ("ezsp.setInitialSecurityState", "ezsp.formNetwork")]
         == ["ezsp.setInitialSecurityState", "ezsp.formNetwork"],
     )
+
+
+# ---------------------------------------------------------------------------
+# the read half: ControllerApplication.load_network_info (C14 "reading them back returns the same ...")
+# ---------------------------------------------------------------------------
+import bellows.ezsp.v14 as _v14  # noqa: E402
+import bellows.ezsp.v4 as _v4  # noqa: E402
+import bellows.ezsp.v13 as _v13  # noqa: E402
+import zigpy.zdo.types as zdo_t  # noqa: E402
+
+constructor_ = __import__("pyvc.contracts", fromlist=["constructor"]).constructor
+from contracts.externals import _value_wrapper  # noqa: E402
+
+for _w in (zigpy_t.ExtendedPanId,):
+    constructor_(_w)(_value_wrapper)
+
+ReadKeyT = T.record(zigpy.state.Key, frozen=False, key=T.opaque, tx_counter=T.range(0, 0xFFFFFFFF),
+                    rx_counter=T.range(0, 0xFFFFFFFF), seq=T.range(0, 255), partner_ieee=T.opaque)
+
+
+def _async_gen(name, item_type):
+    """an async generator of the EZSP object (its own contract: contracts/ezsp_accessors.py): any number of items of
+    the declared type, a command failure at any step"""
+    gen = ext_class("gen_" + name)
+    gen.methods["__anext__"] = ExtMethod("__anext__", effect=True, is_async=True,
+                                         raises=[StopAsyncIteration, asyncio.TimeoutError, EzspError],
+                                         returns=lambda I, s, a, k: item_type.fresh(I, name + ".item"))
+
+    def make(I, self_obj, args, kwargs):
+        I.ctx.emit("call", "ezsp." + name, tuple(args), dict(kwargs))
+        return SObj(gen, {}, tag="gen_" + name)
+
+    return ExtMethod(name, fn=make)
+
+
+def _ezsp_for_load(cls):
+    def dyn(name):
+        if not isinstance(name, str) or name not in cls.COMMANDS:
+            return None
+        from pyvc import ncp
+
+        def ret(I, s, a, k):
+            ncp.check_request(I, cls, name, list(a), dict(k))
+            return ncp.response_of(I, cls, name)
+
+        return ExtMethod(name, effect=True, is_async=True, raises=NCP_FAILS, returns=ret)
+
+    return ext_class(
+        "ezsp", fields={"ezsp_version": T.const(cls.VERSION)}, stable_fields=("ezsp_version",), dynamic=dyn,
+        get_network_key=_a("get_network_key", lambda I, s, a, k: ReadKeyT.fresh(I, "network_key")),
+        get_tc_link_key=_a("get_tc_link_key", lambda I, s, a, k: ReadKeyT.fresh(I, "tc_link_key")),
+        can_rewrite_custom_eui64=_a("can_rewrite_custom_eui64", lambda I, s, a, k: T.bool.fresh(I, "can_rewrite")),
+        can_burn_userdata_custom_eui64=_a("can_burn_userdata_custom_eui64", lambda I, s, a, k: T.bool.fresh(I, "can_burn")),
+        read_link_keys=_async_gen("read_link_keys", ReadKeyT),
+        read_child_data=_async_gen("read_child_data", T.tuple(T.typed_int(t.EmberNodeId), T.opaque, T.enum(t.EmberNodeType))),
+        read_address_table=_async_gen("read_address_table", T.tuple(T.typed_int(t.EmberNodeId), T.opaque)),
+    )
+
+
+# zigpy's State object: only this operation writes it while it runs (sequential use, as for the other C14 operations)
+STATE = ext_class("state", fields={"node_info": T.opaque, "network_info": T.opaque}, stable_fields=("node_info", "network_info"))
+
+
+def _load_spec(cls):
+    return ClassSpec("bellows.zigbee.application.ControllerApplication",
+                     fields=dict(_ezsp=T.ext(_ezsp_for_load(cls)), state=T.ext(STATE)), interference=[])
+
+
+_LOAD_SPECS = {cls.VERSION: _load_spec(cls) for cls in (_v4.EZSPv4, _v13.EZSPv13, _v14.EZSPv14)}
+
+_bi = REGISTRY.contracts.get("bellows.zigbee.application.ControllerApplication._get_board_info")
+if _bi is None:
+    @contract("bellows.zigbee.application.ControllerApplication._get_board_info", props=["C14"])
+    def _(c):
+        c.self(APP_NI)
+        c.trusted = True  # board strings are not part of the network settings
+        c.effect_name = "app._get_board_info"
+        c.returns(T.tuple(T.opaque, T.opaque, T.opaque))
+        c.raises("timeout", asyncio.TimeoutError)  # (EzspError is absorbed by the function itself)
+        c.raises("cancelled", asyncio.CancelledError)
+        c.modifies()
+
+
+def rsp(fx, name, i=0):
+    return [r[2] for r in fx if r[0] == "ret" and r[1] == "ezsp." + name][i]
+
+
+def params(fx):
+    return ncp_field(rsp(fx, "getNetworkParameters"), "parameters")
+
+
+def ncp_field(r, name):
+    return r.items[r.field_names.index(name)]
+
+
+@contract("bellows.zigbee.application.ControllerApplication.load_network_info", props=["C14"])
+def _(c):
+    c.self(_LOAD_SPECS[4])
+    c.cases(*[(f"v{v}, {'with' if ld else 'without'} devices", {"__selfspec__": sp, "load_devices": T.const(ld)})
+              for v, sp in _LOAD_SPECS.items() for ld in (False, True)])
+    c.raises("not_a_coordinator", zigpy.exceptions.NetworkNotFormed)
+    c.raises("unexpected_status", AssertionError)
+    c.raises("security_level_does_not_fit_a_byte", ValueError)  # the NCP reports it as a 16-bit configuration value
+    c.raises("command_failed", EzspError)
+    c.raises("timeout", asyncio.TimeoutError)
+    c.raises("failed", zigpy.exceptions.RadioException)
+    c.raises("cancelled", asyncio.CancelledError)
+    # node address pair: what the NCP reports for itself
+    c.ensures(
+        "post.node_addresses_are_the_ncps",
+        lambda self, fx: self.state.node_info.nwk == ncp_field(rsp(fx, "getNodeId"), "nodeId")
+        and self.state.node_info.ieee == ncp_field(rsp(fx, "getEui64"), "eui64"),
+    )
+    # "returns the same PAN ID, extended PAN ID, channel and channel mask, update ID": each setting comes from the
+    # field of that name of the NCP's network parameters
+    c.ensures(
+        "post.network_parameters_by_field",
+        lambda self, fx: self.state.network_info.pan_id == params(fx).panId
+        and self.state.network_info.extended_pan_id == params(fx).extendedPanId
+        and self.state.network_info.channel == params(fx).radioChannel
+        and self.state.network_info.channel_mask == params(fx).channels
+        and self.state.network_info.nwk_update_id == params(fx).nwkUpdateId
+        and self.state.network_info.nwk_manager_id == params(fx).nwkManagerId,
+    )
+    c.ensures(
+        "post.only_a_coordinator_with_good_statuses",
+        lambda fx: ncp_field(rsp(fx, "getNetworkParameters"), "nodeType") == t.EmberNodeType.COORDINATOR
+        and t.sl_Status.from_ember_status(ncp_field(rsp(fx, "getNetworkParameters"), "status")) == t.sl_Status.OK
+        and t.sl_Status.from_ember_status(ncp_field(rsp(fx, "getCurrentSecurityState"), "status")) == t.sl_Status.OK,
+    )
+    # "network key with its sequence number, trust-centre link key": the objects the accessors returned
+    c.ensures(
+        "post.keys_are_the_accessors_results",
+        lambda self, fx: self.state.network_info.network_key is rsp(fx, "get_network_key")
+        and self.state.network_info.tc_link_key is rsp(fx, "get_tc_link_key"),
+    )
+    # "(including the hashed form kept in stack-specific data)"
+    c.ensures(
+        "post.hashed_link_key_moved_to_stack_specific_data",
+        lambda self, fx: (
+            "ezsp" in self.state.network_info.stack_specific
+            and self.state.network_info.tc_link_key.key == zigpy_t.KeyData(b"ZigBeeAlliance09")
+        ) if t.EmberCurrentSecurityBitmask.TRUST_CENTER_USES_HASHED_LINK_KEY in ncp_field(rsp(fx, "getCurrentSecurityState"), "state").bitmask
+        else self.state.network_info.stack_specific == {},
+    )
+    # the coordinator is its own trust centre: the link key's partner is the NCP's own address
+    c.ensures(
+        "post.trust_centre_is_this_node",
+        lambda self, fx: self.state.network_info.tc_link_key.partner_ieee == ncp_field(rsp(fx, "getEui64"), "eui64"),
+    )
+    c.ensures(
+        "post.tables_empty_without_devices",
+        lambda self, load_devices: implies(
+            not load_devices,
+            self.state.network_info.key_table == [] and self.state.network_info.children == []
+            and self.state.network_info.nwk_addresses == {},
+        ),
+    )
+    AnyMap = T.map(T.typed_int(t.EmberNodeId))
+    ghost = {"types": {"self.state.network_info.key_table": T.any_list(), "self.state.network_info.children": T.any_list(),
+                       "self.state.network_info.nwk_addresses": AnyMap}}
+    # "link-key table entries": every key the accessor yields is appended, in order, nothing else
+    c.loop(0, ghost=ghost,
+           at_entry=[("starts_empty", lambda self: self.state.network_info.key_table == [])],
+           each=[("yielded_key_appended", lambda self, link_key: self.state.network_info.key_table
+                  == old(self.state.network_info.key_table) + [link_key])])
+    # "the child table": every child is recorded with its own address pair
+    c.loop(1, ghost=ghost,
+           at_entry=[("starts_empty", lambda self: self.state.network_info.children == [] and self.state.network_info.nwk_addresses == {})],
+           each=[("child_recorded_with_its_addresses",
+                  lambda self, nwk, eui64: self.state.network_info.children == old(self.state.network_info.children) + [eui64]
+                  and self.state.network_info.nwk_addresses[eui64] == nwk
+                  and unchanged_except(self.state.network_info.nwk_addresses, old(self.state.network_info.nwk_addresses), [eui64]))])
+    c.loop(2, ghost=ghost,
+           each=[("address_recorded",
+                  lambda self, nwk, eui64: self.state.network_info.nwk_addresses[eui64] == nwk
+                  and unchanged_except(self.state.network_info.nwk_addresses, old(self.state.network_info.nwk_addresses), [eui64])
+                  and self.state.network_info.children == old(self.state.network_info.children))])
